@@ -668,3 +668,137 @@ Proof.
   exact (IH (Forall_inv_tail Hn) s1 H1).
 Qed.
 End Loop.
+
+(* ---- split_on / join_dots on dot-free labels ---- *)
+Lemma split1_nodot_id l : nodot l -> split1 DOT l = (l, []).
+Proof.
+  induction l as [|x r IH]; intros H; cbn [split1]; [reflexivity|]. inversion H as [|? ? Hx Hr]; subst.
+  rewrite (IH Hr). replace (x =? DOT) with false by (symmetry; apply N.eqb_neq; exact Hx). reflexivity.
+Qed.
+Lemma split1_app_dot l r : nodot l -> split1 DOT (l ++ DOT :: r) = (l, fst (split1 DOT r) :: snd (split1 DOT r)).
+Proof.
+  induction l as [|x l' IH]; intros H; cbn [app split1].
+  - destruct (split1 DOT r) as [h t]. rewrite N.eqb_refl. reflexivity.
+  - inversion H as [|? ? Hx Hr]; subst. rewrite (IH Hr).
+    replace (x =? DOT) with false by (symmetry; apply N.eqb_neq; exact Hx). reflexivity.
+Qed.
+Lemma split_join ls : ls <> [] -> Forall nodot ls -> split_on DOT (join_dots ls) = ls.
+Proof.
+  induction ls as [|l r IH]; [congruence|]. intros _ H. inversion H as [|? ? Hl Hr]; subst. destruct r as [|x r'].
+  - cbn [join_dots]. unfold split_on. rewrite (split1_nodot_id l Hl). reflexivity.
+  - rewrite join_dots_cons2. unfold split_on. rewrite (split1_app_dot l _ Hl).
+    specialize (IH ltac:(discriminate) Hr). unfold split_on in IH.
+    destruct (split1 DOT (join_dots (x :: r'))) as [h t]. cbn [fst snd]. rewrite IH. reflexivity.
+Qed.
+Lemma fast_tier_suffix iter : forall mrls t, fast_tier iter mrls = Some t -> t = mrls \/ exists pre, iter = pre ++ t.
+Proof.
+  induction iter as [|b r IH]; intros mrls t H; [discriminate|]. cbn [fast_tier] in H.
+  destruct (in_inclusive_range8 b 97 122).
+  - destruct (IH mrls t H) as [->|(pre & ->)]; [left; reflexivity|right; exists (b :: pre); reflexivity].
+  - destruct (b =? DOT); [|inversion H; left; reflexivity].
+    right. destruct (IH r t H) as [->|(pre & ->)]; [exists [b]; reflexivity|exists (b :: pre); reflexivity].
+Qed.
+
+(* ---- the bidi pass and the result of process_inner ---- *)
+Section Final.
+Variable A : adapter.
+Variable cfg : bool.
+
+Definition BLP (labels : list (list N)) (he : bool) (r : step (list (list N) * bool)) : Prop :=
+  match r with
+  | SOk (ls, he') => Forall2 marked labels ls /\ ((efffd labels = true -> he = true) -> he' = he || efffd ls)
+  | SExit => False
+  | SPanic _ => True
+  end.
+Lemma bidi_labels_BLP labels : forall he, BLP labels he (bidi_labels A false labels he).
+Proof.
+  induction labels as [|l r IH]; intros he; cbn [bidi_labels].
+  - cbn [BLP]. split; [constructor|]. intros _. cbn [efffd existsb]. rewrite orb_false_r. reflexivity.
+  - pose proof (bidi_label_MK A l he) as HM.
+    destruct (bidi_label A false l he) as [[l' he1]| |p]; cbn [MK sbind BLP] in *; [|contradiction|exact I].
+    pose proof (IH he1) as HI.
+    destruct (bidi_labels A false r he1) as [[r' he2x]| |p]; cbn [sbind BLP] in *; [|contradiction|exact I].
+    destruct HI as [HI1 HI2]. split; [constructor; [exact (proj1 HM)|exact HI1]|]. intros E. cbn [efffd existsb] in *.
+    assert (H1 : he1 = he || fffd l').
+    { apply (T_exact _ _ _ _ HM). intros Hf. apply E. apply orb_true_iff; left; exact Hf. }
+    rewrite HI2.
+    + rewrite H1. rewrite orb_assoc. reflexivity.
+    + intros Hf. rewrite H1. rewrite E by (apply orb_true_iff; right; exact Hf). reflexivity.
+Qed.
+
+Lemma marked_all_nodot ls ls' : Forall nodot ls -> Forall2 marked ls ls' -> Forall nodot ls'.
+Proof.
+  intros Hn H. induction H as [|a b ls ls' Hab _ IH]; [constructor|].
+  constructor; [exact (marked_nodot _ _ (Forall_inv Hn) Hab)|exact (IH (Forall_inv_tail Hn))].
+Qed.
+Lemma marked_all_fffd ls ls' : Forall2 marked ls ls' -> efffd ls = true -> efffd ls' = true.
+Proof.
+  intros H. induction H as [|a b ls ls' Hab _ IH]; [discriminate|]. cbn [efffd existsb]. intros Hf.
+  apply orb_true_iff in Hf. destruct Hf as [Hf|Hf]; [rewrite (marked_fffd _ _ Hf Hab); reflexivity|].
+  unfold efffd in IH. rewrite (IH Hf). apply orb_true_r.
+Qed.
+Lemma Forall2_len {X Y} (R : X -> Y -> Prop) a b : Forall2 R a b -> length a = length b.
+Proof. induction 1; cbn [length]; [reflexivity|f_equal; assumption]. Qed.
+
+(* what the marking run of process_inner returns *)
+Definition FInv (d : list N) (r : inner_res) : Prop :=
+  match r with
+  | IPanic _ => True
+  | IRes ptu bidi he db ap =>
+      (ptu = len d /\ he = false) \/
+      (ptu < len d /\ exists dbl, dbl <> [] /\ split_on DOT db = dbl /\ Forall nodot dbl /\ he = efffd dbl /\ he = fffd db /\
+         length dbl = length ap /\ (bidi = false -> pre_ok dbl ap) /\
+         exists P rl, d = P ++ join_dots rl /\ len P = ptu /\ cover ap rl)
+  end.
+
+Lemma process_innermost_FInv hy deny d pre tail : d = pre ++ tail ->
+  FInv d (process_innermost A cfg false hy deny d tail).
+Proof.
+  intros Hd. unfold process_innermost.
+  set (s0 := {| i_ptu := len d - len tail; i_seen := false; i_inpre := true; i_db := []; i_he := false; i_ap := [] |}).
+  assert (H0 : SInv d s0 (split_on DOT tail)).
+  { exists pre. unfold s0. cbn [i_db i_ap i_ptu i_inpre i_seen i_he]. split; [rewrite Hd, len_app; lia|].
+    repeat split. cbn [tailtext]. rewrite join_split. exact Hd. }
+  pose proof (labels_loop_SInv A cfg d hy deny (split_on DOT tail) (split_on_nodot tail) s0 H0) as HL.
+  destruct (labels_loop A cfg false hy deny (split_on DOT tail) s0) as [s| |p]; cbn [SPost] in HL; [|contradiction|exact I].
+  destruct HL as (P & HP & H). destruct (i_inpre s).
+  - destruct H as (Hdb & Hap & Hhe & Hdd). rewrite Hdb. cbn [is_bidi]. cbn [FInv]. left.
+    split; [|exact Hhe]. rewrite Hdd, <- HP. destruct (i_seen s); cbn [tailtext]; rewrite app_nil_r; reflexivity.
+  - destruct H as (Hseen & Hlt & dbl & done & Hdn & Hdb & Hnd & Hpo & Hhe & Hdd & Hcv).
+    rewrite app_nil_r in Hdd.
+    destruct (is_bidi A cfg (i_db s)) as [[|]| |p]; try exact I.
+    + pose proof (bidi_labels_BLP (split_on DOT (i_db s)) (i_he s)) as HB.
+      destruct (bidi_labels A false (split_on DOT (i_db s)) (i_he s)) as [[ls he']| |p]; cbn [BLP] in HB; [|contradiction|exact I].
+      rewrite Hdb, (split_join dbl Hdn Hnd) in HB. destruct HB as [HM HE].
+      assert (Hls : ls <> []) by (intros ->; inversion HM; subst; congruence).
+      pose proof (marked_all_nodot _ _ Hnd HM) as Hnl.
+      cbn [FInv]. right. split; [exact Hlt|]. exists ls.
+      assert (Hhe' : he' = efffd ls).
+      { rewrite HE by (intros Hq; rewrite Hhe; exact Hq). rewrite Hhe.
+        destruct (efffd dbl) eqn:Ed; [rewrite (marked_all_fffd _ _ HM Ed); reflexivity|reflexivity]. }
+      split; [exact Hls|]. split; [exact (split_join ls Hls Hnl)|]. split; [exact Hnl|]. split; [exact Hhe'|].
+      split; [rewrite fffd_join; exact Hhe'|]. split; [rewrite <- (Forall2_len _ _ _ HM); exact (Forall2_len _ _ _ Hpo)|].
+      split; [discriminate|]. exists P, done. repeat split; assumption.
+    + cbn [FInv]. right. split; [exact Hlt|]. exists dbl.
+      split; [exact Hdn|]. split; [rewrite Hdb; exact (split_join dbl Hdn Hnd)|]. split; [exact Hnd|]. split; [exact Hhe|].
+      split; [rewrite Hdb, fffd_join; exact Hhe|]. split; [exact (Forall2_len _ _ _ Hpo)|].
+      split; [intros _; exact Hpo|]. exists P, done. repeat split; assumption.
+Qed.
+
+Theorem process_inner_FInv hy deny d : FInv d (process_inner A cfg false hy deny d).
+Proof.
+  unfold process_inner. destruct (fast_tier d d) as [tail|] eqn:Ef.
+  - destruct (fast_tier_suffix d d tail Ef) as [->|(pre & Hd)].
+    + apply (process_innermost_FInv hy deny d [] d). reflexivity.
+    + apply (process_innermost_FInv hy deny d pre tail). exact Hd.
+  - cbn [FInv]. left. split; reflexivity.
+Qed.
+
+(* consequence: the debug assertion of line 789 (had_errors == domain_buffer contains U+FFFD) cannot fire *)
+Corollary mark_he_exact hy deny d ptu bd he db ap :
+  process_inner A cfg false hy deny d = IRes ptu bd he db ap -> ptu <> len d -> he = existsb is_fffd db.
+Proof.
+  intros H Hn. pose proof (process_inner_FInv hy deny d) as HF. rewrite H in HF. cbn [FInv] in HF.
+  destruct HF as [[E _]|(_ & dbl & _ & _ & _ & _ & Hx & _)]; [contradiction|exact Hx].
+Qed.
+End Final.
